@@ -21,6 +21,7 @@ import Proofs.GoTieWriteStanza
 import Proofs.GoTiePluginUI
 import Props.C16
 import Proofs.GoTieWitnessB
+import Proofs.GoTiePluginFail
 namespace AgeModel
 namespace Tie.C16
 open Extracted Plugin GoTie
@@ -132,6 +133,50 @@ theorem code_wrap_never_empty {S σ υ χ : Type} (E : PluginEnv S σ υ χ)
     obtain ⟨_, _, h3⟩ := hres
     rw [e3, hok] at h3
     cases err <;> simp [rErrRel] at h3
+
+/-! ### When the plugin cannot be reached
+
+The simulations above assume (`PluginEnv`) that the plugin starts and that every write to it
+succeeds. The paths they leave out, for EVERY behaviour of the other callees: when
+`openClientConnection` fails the two client methods return their own error at once — nothing is
+written to the plugin, no UI callback runs, no stanza / file key is returned; when the FIRST write
+(`add-recipient` / `add-identity`) fails, they close the connection and return that write's error
+with nothing else. (A write that fails LATER in the conversation is still outside these theorems:
+the correspondence's scripted-plugin cases with a plugin that closes its input cover it.) -/
+
+section fail
+variable {σ υ χ : Type} (Open : Bytes → Bytes → Go.M (χ × Option Go.Err))
+  (W : χ → Bytes → List Bytes → Go.M (Option Go.Err × χ)) (Close : χ → Go.M (Option Go.Err)) (grease : Bytes)
+  (WB : χ → Bytes → Bytes → Go.M (Option Go.Err × χ)) (M : Extracted.format_Stanza → χ → Go.M (Option Go.Err × χ))
+  (New : χ → Go.M σ) (Rd : υ → Bytes → σ → Go.M (Extracted.format_Stanza × Option Go.Err × σ))
+  (Hd : υ → Bytes → χ → Extracted.format_Stanza → Go.M (Bool × Option Go.Err × χ)) (rem : σ → Nat)
+
+theorem recipient_open_fails (r : Extracted.plugin_Recipient υ) (fk : Bytes) (c : χ) (e : Go.Err)
+    (hO : Open r.name "recipient-v1".toUTF8.toList = .ok (c, some e)) :
+    Extracted.plugin_Recipient_WrapWithLabels Open W Close grease WB New Rd Hd rem r fk =
+      .ok ([], none, some ⟨"plugin.(*Recipient).WrapWithLabels", 0, []⟩, some c) :=
+  GoTie.recipient_open_fails Open W Close grease WB New Rd Hd rem r fk c e hO
+
+theorem identity_open_fails (i : Extracted.plugin_Identity υ) (ss : List Extracted.age_Stanza) (c : χ) (e : Go.Err)
+    (hO : Open i.name "identity-v1".toUTF8.toList = .ok (c, some e)) :
+    Extracted.plugin_Identity_Unwrap Open W Close grease M New Rd Hd rem i ss =
+      .ok ([], some ⟨"plugin.(*Identity).Unwrap", 0, []⟩, some c) :=
+  GoTie.identity_open_fails Open W Close grease M New Rd Hd rem i ss c e hO
+
+theorem recipient_first_write_fails (r : Extracted.plugin_Recipient υ) (fk : Bytes) (c c' : χ) (e : Go.Err) (ce : Option Go.Err)
+    (hO : Open r.name "recipient-v1".toUTF8.toList = .ok (c, none))
+    (hW : W c (if r.identity then "add-identity".toUTF8.toList else "add-recipient".toUTF8.toList) [r.encoding] = .ok (some e, c'))
+    (hC : Close c' = .ok ce) :
+    Extracted.plugin_Recipient_WrapWithLabels Open W Close grease WB New Rd Hd rem r fk = .ok ([], none, some e, some c') :=
+  GoTie.recipient_first_write_fails Open W Close grease WB New Rd Hd rem r fk c c' e ce hO hW hC
+
+theorem identity_first_write_fails (i : Extracted.plugin_Identity υ) (ss : List Extracted.age_Stanza) (c c' : χ) (e : Go.Err) (ce : Option Go.Err)
+    (hO : Open i.name "identity-v1".toUTF8.toList = .ok (c, none))
+    (hW : W c "add-identity".toUTF8.toList [i.encoding] = .ok (some e, c'))
+    (hC : Close c' = .ok ce) :
+    Extracted.plugin_Identity_Unwrap Open W Close grease M New Rd Hd rem i ss = .ok ([], some e, some c') :=
+  GoTie.identity_first_write_fails Open W Close grease M New Rd Hd rem i ss c c' e ce hO hW hC
+end fail
 
 /-- **the assumption structures this file's theorems take are satisfiable** (for a lawful toy primitive suite
     with the 16-byte tag, where they mention primitives): none of the theorems above is vacuous. The instances are in
